@@ -124,6 +124,7 @@ class World:
         # prices as a DataFrame without dates (row i = step i), valid for every grid of four steps
         self.Pdf4 = pd.DataFrame({k: np.asarray(v, float) for k, v in self.P[0][0].items()})
         self.params = ()       # parameters of the objects changed in place so far: ((name, value), ...)
+        self.just_built = False  # the last operation was the set-up of the portfolio problem that OPT would solve
         self.acur = {}         # asset -> label of the grid last handed to it
         self.cur = None        # label of the grid last handed to the portfolio
         self.last = None       # (kind, args) of the last portfolio problem
@@ -133,7 +134,7 @@ class World:
     def objects(self):
         return dict(con=self.con, sto=self.sto, tr=self.tr, mk2=self.mk2, isto=self.isto, itr=self.itr, st=self.st, pf=self.pf,
                     fm=self.fm, flat=self.flat, ksto=self.ksto, ktr=self.ktr, st2=self.st2, flat2=self.flat2, capd=self.capd, taked=self.taked, P=self.P, ob=self.ob, late=self.late, pl=self.pl, plf=self.plf, gas=self.gas, cap_arr=self.cap_arr, cap4=self.cap4, arr4=self.arr4, pf_arr=self.pf_arr, xtr=self.xtr, xtake=self.xtake, orders=self.orders, orders_df=self.orders_df, fw=self.fw, fwa=self.fwa, pf_fix=self.pf_fix, Pdf4=self.Pdf4,
-                    ctx=(self.cur, self.last, None if self.last_op is None else "op", sorted(self.acur.items())))
+                    ctx=(self.cur, self.last, None if self.last_op is None else "op", sorted(self.acur.items()), self.just_built))
 
     def key(self):
         from mc import history as H
@@ -158,6 +159,7 @@ class World:
         import eaopack as eao
         from mc import history as H
         kind = op[0]
+        just_built, self.just_built = self.just_built, False
         if kind == "PAR":   # a parameter of an asset of the portfolio is changed in place (a parameter sweep on the same objects)
             _, name, value = op
             obj, attr = name.split(".")
@@ -170,6 +172,7 @@ class World:
             self.acur.update(con=gi, sto=gi)
             self.cur, self.last, self.last_op, self.last_res = gi, ("S", gi, pj), prob, None
             self.last_params = self.params
+            self.just_built = True
             return ("problem", H.problem_hash(prob))
         if kind == "A":
             _, k, gi = op
@@ -186,6 +189,7 @@ class World:
             prob = self.pf.setup_optim_problem(self.P[pj][self.cur])
             self.last, self.last_op, self.last_res = ("S", self.cur, pj), prob, None
             self.last_params = self.params
+            self.just_built = True
             return ("problem", H.problem_hash(prob))
         if kind == "SPLIT":
             _, gi = op
@@ -193,6 +197,7 @@ class World:
             self.acur.update(con=gi, sto=gi)
             self.cur, self.last, self.last_op, self.last_res = gi, ("SPLIT", gi), prob, None
             self.last_params = self.params
+            self.just_built = True
             return ("problem", H.problem_hash(prob))
         if kind == "SPLITDF":
             _, gi = op
@@ -203,6 +208,11 @@ class World:
             self.last_res = res
             if isinstance(res, str):
                 return ("status", res)
+            if just_built:
+                # the problem was set up by the operation just before: its output is part of the comparison (time index and dispatch)
+                out = eao.io.extract_output(self.pf, self.last_op, res, None)
+                d = out["dispatch"]
+                return ("value", repr(round(float(res.value), 6)), chash([[str(x) for x in d.index], list(d.columns), np.round(d.values, 5).tolist()]))
             try:
                 # exercised for its possible side effects only: extracting the output of an OLDER problem after the
                 # assets were set up on another grid is outside the statement (it may legitimately fail)
@@ -271,6 +281,7 @@ def fresh_reference(op, ctx):
             w.apply(("S", last[1], last[2]))
         else:
             w.apply(("SPLIT", last[1]))
+        w.just_built = bool(ctx[4]) if len(ctx) > 4 else False
     return w.apply(op)
 
 
@@ -287,10 +298,10 @@ def run_history(case):
     w = World()
     ms0 = H.module_state_hash()
     desc = None
-    ctx = (None, None, (), ())
+    ctx = (None, None, (), (), False)
     try:
         for i, op in enumerate(hist):
-            ctx = (w.cur, w.last, tuple(sorted(w.acur.items())), w.params)
+            ctx = (w.cur, w.last, tuple(sorted(w.acur.items())), w.params, w.just_built)
             if not w.enabled(op):
                 res.update(status="disabled", validated=False, key=None)
                 return res
